@@ -154,9 +154,11 @@ class Prop:
                 else:
                     ops.append(["dispose"])
             scripts.append(ops)
-        return {"exit_if_empty": rng.random() < 0.5, "scripts": scripts, "sched": th.gen_sched(rng, spurious_p=0.3, drift_p=0.5)}
+        return {"exit_if_empty": rng.random() < 0.5, "scripts": scripts, "sched": th.gen_sched(rng, spurious_p=0.3, drift_p=0.5, sweep_p=0.02)}
 
     def execute(self, sc):
+        if sc["sched"].get("sweep") and "cps" not in sc:
+            return th.sweep(self.execute, sc)
         out = Outcome()
         self._explore(sc, out)
         return out
